@@ -43,10 +43,10 @@ def impl_side(c, ops_file, impl_file, max_report=6):
 
 
 def profiles():
-    """VERIF_HUB_PROFILE = mock (default) | full | both.  mock: mocktikv's MVCC store (every recorded answer is compared with the
+    """VERIF_HUB_PROFILE = both (default: each profile at 60 % of the tier's scenario count) | mock | full.  mock: mocktikv's MVCC store (every recorded answer is compared with the
     Lean model's); full: the real client runs against the Lean store itself (cgv-full: async commit, 1PC, CheckSecondaryLocks really
-    happen), only C01–C04 have generators tuned for it."""
-    p = os.environ.get("VERIF_HUB_PROFILE", "mock")
+    happen), all six generators run on it."""
+    p = os.environ.get("VERIF_HUB_PROFILE", "both")
     return {"mock": ["mock"], "full": ["full"], "both": ["mock", "full"]}.get(p, ["mock"])
 
 
@@ -56,10 +56,13 @@ def run_hub(pid, a, rule, assumptions=()):
     c.assumptions = list(COMMON_ASSUMPTIONS) + list(assumptions)
     exe = c.build_driver(EXE)
     hbin = c.build_harness(HARNESS)
-    for prof in profiles():
+    profs = profiles()
+    for prof in profs:
         if not (exe and hbin):
             break
         extra = ["-prop", pid]
+        if len(profs) > 1:
+            extra += ["-scale", "60"]
         if prof == "full":
             full = c.build_driver("cgv-full")
             if not full:
